@@ -1,22 +1,25 @@
 """
 C11 - beat to time conversion matches the exact timeline for all event interleavings.
 """
-from props.engine_common import TagOrder, TaggedLt, TimeUntil, Advance, Lookup, EngineVsStatement, engine_witness, CoalesceWarps
+from props.engine_common import TagOrder, TaggedLt, TimeUntil, Advance, Lookup, EngineVsStatement, engine_witness, CoalesceWarps, RetimeEvents
 
 LEVEL = "other"
 TRUSTED = ["T-STD: bisect returns a local boundary index on any list and the partition point on a sorted one; heapq.merge of sorted inputs is the sorted merge",
            "A-FLOAT: floats are reals",
-           "SM_inv: the engine's state list is the fold of the state-machine step over the merged events (checked here only through the bounded stand-in)",
+           "heapq.merge: as many elements as the inputs hold, each from some input, in (beat, tag) order when every input is sorted (T-STD); that the sources are sorted by beat is the property's domain",
            "pyvc VC generator; z3/cvc5"]
-ASSUMPTIONS = ["numerical accuracy (1e-9 s) is not decided: floats are treated as reals",
-               "_retime_events (merge order, building the state list) is covered by the bounded stand-in only"]
+ASSUMPTIONS = ["numerical accuracy (1e-9 s) is not decided: floats are treated as reals (so a look-up table holding float(beat) instead of the exact beat is indistinguishable for the solver; the bounded stand-in probes off-grid ticks for that)",
+               "the induction that assembles SM_inv from the discharged steps of _retime_events is argued outside the solver"]
 EXPLANATION = ("Proved (SMT, all inputs): the seven EventTag values are ordered as the statement needs (closed term); TaggedEvent.__lt__ is the lexicographic "
                "(beat, tag) order; TimingState.time_until is the statement's formula (zero inside a warp else 60/BPM per beat, plus the pause exactly when the "
                "state starts a stop/delay and the asked tag is an END tag); TimingStateMachine.advance appends exactly the next state of the recurrence; time_at "
                "and bpm_at take the last state at or before (beat, tag) and extrapolate from it; _coalesce_warps produces strictly alternating WARP/WARP_END pairs "
-               "that cover exactly the union of the warp segments (loop invariant with universally quantified conjuncts proved by single-instance skolemisation). Bounded (never counted as proved): that the recurrence the engine "
-               "builds (_retime_events: merge order, state list) equals the statement's timeline, monotonicity, offset shift, redundant-BPM "
+               "that cover exactly the union of the warp segments (loop invariant with universally quantified conjuncts proved by single-instance skolemisation); "
+               "_retime_events starts the state list with (beat 0, first BPM, time -offset, no warp), merges exactly the seven event lists each under its own tag, "
+               "appends one state per merged event by the state-machine step (fold invariant) and builds _tagged_beats/_tagged_times/_times as the projections of "
+               "the state list; two closed lemmas over the step (domain kept, time monotone on events in beat order) are the inductive steps of SM_inv. "
+               "Bounded (never counted as proved): that this recurrence equals the statement's timeline end to end, monotonicity, offset shift, redundant-BPM "
                "invariance - the real engine against an exact-rational evaluation of the statement on every small configuration, in 12 parallel slices.")
-UNITS = [TagOrder(), TaggedLt(), TimeUntil(), Advance(), Lookup("time_at"), Lookup("bpm_at"), CoalesceWarps()]
+UNITS = [TagOrder(), TaggedLt(), TimeUntil(), Advance(), Lookup("time_at"), Lookup("bpm_at"), CoalesceWarps(), RetimeEvents()]
 BOUNDED = [EngineVsStatement("time_at", k) for k in range(EngineVsStatement.PARTS)]
 witness_search = engine_witness(["time_at"])
